@@ -69,6 +69,18 @@ def fresh_slots(e, roles):
             and n[2] == ('fld', ('this',), roles.slots))
 
 
+def unkeys_loop_element(e, lp, roles):
+    """`e.m_keyed_position = std::nullopt` on the current element of a range-for over the order list"""
+    if e.kind == 'BACKPTR':
+        return empty_result(e.val) or e.val == ('global', 'nullopt')
+    if e.kind != 'OTHER_WR' or not isinstance(e.loc, tuple) or len(e.loc) != 3 or e.loc[0] != 'fld' or e.loc[2] not in roles.backptrs:
+        return False
+    base = e.loc[1]
+    if not (isinstance(base, tuple) and base[:1] == ('elem',) and rel(base[1], 0) == rel(lp.range, 0)):
+        return False
+    return e.val == ('global', 'nullopt') or empty_result(e.val)
+
+
 def rule_c20(an, res):
     prop = 'C20'
     for cm, roles in an.classes():
@@ -80,6 +92,11 @@ def rule_c20(an, res):
             continue
         m = clears[0]
         mutable = written_roles(an, cm, roles)
+        for comp in list(mutable):
+            # a callback the caller installs (std::function member) is configuration, kept across clear() like the configured ttl
+            f = cm.field_by_name.get(comp[6:]) if comp.startswith('field:') else None
+            if f is not None and 'std::function<' in (f.type or ''):
+                del mutable[comp]
         L = lift.Lifter(roles)
         for top in method_segments(an, cm, roles, m, res):
             effs = top.state_effects()
@@ -94,6 +111,22 @@ def rule_c20(an, res):
                 continue
             if top.loops:
                 nl = numbering_loops(top.path, THIS(roles.order)) if roles.order else 2
+                # `for (auto& e : m_fifo_list) e.m_keyed_position = std::nullopt;`: a range-for over the whole order list whose only
+                # effect is to un-key every node (the optional back-pointer a constructed node starts with)
+                if roles.order and getattr(roles, 'optional_backptr', False):
+                    for lp, segs in top.loops:
+                        if lp.kind == 'range' and rel(lp.range, 0) == THIS(roles.order) and segs and \
+                                all(s2.status == 'continue' and s2.state_effects() and
+                                    all(unkeys_loop_element(e, lp, roles) for e in s2.state_effects()) for s2 in segs):
+                            nl += 1
+                if nl != len(top.loops) and cm.name not in ('utlru_cache', 'ut_map'):
+                    # a clear() added to a container the property does not name (C20 speaks of utlru_cache / ut_map), written with a
+                    # loop over a run-time number of nodes: which nodes it resets is not decided here
+                    msg = ('G-UNKNOWN clear() walks the list with a hand-written loop (which nodes it resets is a run-time count) in %s '
+                           'reached from %s::%s' % (show_site(site_of_seg(top, m)), cm.name, m.key()))
+                    if msg not in res.incomplete:
+                        res.incomplete.append(msg)
+                    continue
                 if nl != len(top.loops):
                     res.ob('R-RESET-COMPLETE', ok=False)
                     V(res, prop, 'R-RESET-COMPLETE', cm, m.key(), 'clear() contains a loop that is not an exact re-numbering of the whole slot list',
@@ -128,6 +161,10 @@ def reset_ok(comp, effs, roles, L):
     if comp == 'counter':
         c = [e for e in effs if e.kind == 'CNT']
         return (bool(c) and c[-1].val == ('int', 0)), 'element counter is not set to 0'
+    if comp == 'partition' and getattr(roles, 'perm', None) and roles.part == roles.counter:
+        # rr: the partition is the in-use count itself (an index into the open list): back to 0
+        c = [e for e in effs if e.kind == 'CNT']
+        return (bool(c) and c[-1].val == ('int', 0)), 'in-use count / partition index is not set to 0'
     if comp == 'partition':
         p = [e for e in effs if e.kind == 'PART']
         good = p and isinstance(p[-1].val, tuple) and p[-1].val[0] == 'q' and p[-1].val[1] in ('begin', 'cbegin') and p[-1].val[2] == THIS(roles.order)
@@ -226,6 +263,9 @@ def body_summary(b, roles, subst):
             continue        # implied by (or irrelevant next to) the presence decision; ut_*: part of the purge prologue
         if kind == 'EXPIRED' and isinstance(args[0], Ent) and args[0].kind == 'LV':
             continue
+        if kind == 'EXPIRED' and roles.kind == 'maplist' and isinstance(args[0], Ent) and args[0].kind in ('FRONT', 'AUXHEAD', 'AUXHEADNODE') \
+                and (args[0].epoch or 0) == 0:
+            continue        # ut_*: "is the oldest entry still alive?" at the top of the purge prologue
         if kind == 'OTHER':
             conds.append((kind, truth, show(canon(raw, subst, counter))))
         else:
@@ -265,6 +305,21 @@ def empty_result(y):
     return y == ('bool', False) or opt_content(y) == (False, None) or (isinstance(y, tuple) and y[0] == 'ctor' and not y[2])
 
 
+def out_iterator_param(seg, it):
+    """is `it` (the current value of) a by-value parameter of the method that is neither of the two iterators delimiting the input?"""
+    name = None
+    if isinstance(it, tuple) and it[:1] == ('lv',) and len(it) > 1:
+        name = it[1]
+    elif isinstance(it, tuple) and it[:1] == ('p',):
+        name = it[1]
+    elif is_ld(it) and isinstance(it[2], tuple) and it[2][:1] in (('p',), ('lv',)):
+        name = it[2][1]
+    if name is None:
+        return False
+    name = str(name).lstrip('$')
+    return name not in ('first', 'last', 'begin', 'end') and ('out' in name or 'dest' in name or 'result' in name)
+
+
 def deliveries(seg):
     """(key, value, effect) for every answer a range-lookup iteration hands to the caller: output.emplace_back(k, r) /
     push_back(pair) (the pair's second possibly assigned afterwards through the reference emplace_back returned), or a store into
@@ -280,6 +335,11 @@ def deliveries(seg):
     for e in seg.effects:
         if e.kind == 'OUT_CALL' and e.name in ('emplace_back', 'push_back') and len(e.args) == 2:
             out.append([e.args[0], as_optional(e.args[1]), e, getattr(e, 'res', None)])
+        elif e.kind == 'OUT_WR' and isinstance(e.loc, tuple) and e.loc[0] == 'deref' and isinstance(e.val, tuple) and e.val[:1] == ('pair',) \
+                and len(e.val) == 3 and out_iterator_param(seg, e.loc[1]):
+            # `*out++ = pair{key, r}` through an output iterator the caller handed in: the answer is appended like emplace_back(key, r)
+            e.via_out_iterator = True
+            out.append([e.val[1], as_optional(e.val[2]), e, None])
         elif e.kind == 'OUT_WR' and not (isinstance(e.loc, tuple) and e.loc[0] == 'p'):
             loc = e.loc
             hit = None
@@ -526,7 +586,7 @@ def check_plumbing(res, prop, cm, roles, m, top, b):
             # is no such return and the delivered value is judged by R-SIB-BODY (same outcome as the single form) and C01
             same_val = (not res_terms) or dv == res_terms[-1] or (empty_result(dv) and empty_result(res_terms[-1])) \
                 or from_pointer(dv, res_terms[-1])
-            if o.kind == 'OUT_CALL':
+            if o.kind == 'OUT_CALL' or getattr(o, 'via_out_iterator', False):
                 good = dk == key and same_val
             elif o.kind == 'OUT_WR':
                 # the element's own optional / bool, same element as the key
@@ -1018,6 +1078,15 @@ def check_entities(res, prop, cm, roles, m, seg):
 def _check_entities(res, prop, cm, roles, m, seg):
     """R-KIND / R-UNBIND-VIA-BACKPTR: every slot the path touches is named by a sanctioned producer"""
     for e in seg.effects:
+        if e.kind == 'OTHER_WR' and getattr(e, 'field', None) == roles.index and isinstance(e.loc, tuple) and len(e.loc) == 3 \
+                and e.loc[0] == 'fld' and e.loc[2] == 'second' and isinstance(e.loc[1], tuple) and e.loc[1][:1] == ('deref',) \
+                and roles.kind != 'maplist':
+            # `keyed_position->second = ...`: an existing index entry is re-pointed at another slot / node; the slot's own
+            # back-pointer and the key it was stored for no longer agree with the index
+            res.ob('R-BIND-COHERENT', ok=False)
+            V(res, prop, 'R-BIND-COHERENT', cm, where_of(m, seg), 'an existing index entry is re-pointed at another slot', e.site,
+              'path [%s]: %s := %s - the key now names a slot that was bound (and points back) to a different key'
+              % (' '.join(seg.valuation()), show(e.loc), show(e.val)))
         ents = [getattr(e, 'ent', None)]
         for ent in ents:
             if ent is None or not isinstance(ent, Ent):
